@@ -199,6 +199,25 @@ def run(ctx):
     root = os.path.join(d, "edge", "m")
     worlds.write_sources(root, files)
     check_module("edge worlds", root, files={k: v for k, v in files.items() if k.startswith("w0000/") and len(v) < 20000})
+    # (1b) concurrency stress: the first look-ups of the five checkers of a package overlap on a long marker list
+    import stressgen
+    sfiles, scodes = stressgen.ignore_stress(40, 50)
+    sroot = os.path.join(d, "stress", "m")
+    stressgen.write(sroot, sfiles)
+    nst = 12 if not thorough else 60
+    for i in range(nst):
+        r = lib.run_binary(ctx, sroot, json_mode=False, timeout=BOUND(ctx))
+        oc = outcome(dict(r, errors=[]), (3,))
+        n = len(re.findall(r"^\S+\.go:\d+:\d+: error: \[", r["stdout"] + "\n" + r["stderr"], flags=re.M))
+        if oc == "ok" and n != 40 * len(scodes):
+            oc = "%d diagnostics instead of %d" % (n, 40 * len(scodes))
+        runs.append({"input": "stress (40 packages x 50 @ignore markers around violations of 4 checkers)", "run": "multichecker text #%d" % i, "outcome": oc})
+        if oc != "ok":
+            found = True
+            rep.violation({"property": "C10", "kind": "crash", "input": "concurrency stress module (regenerated by checks/stressgen.ignore_stress(40, 50))", "run": "multichecker text #%d" % i,
+                           "outcome": oc, "exit_status": r["rc"], "stderr_tail": (r["stderr"] or "")[-2500:], "files": {k: v for k, v in sfiles.items() if k in ("lib/lib.go", "s0/s.go")},
+                           "what": "the tool does not terminate normally on a compilable input (schedule-dependent: repeated runs)"})
+            break
     # (2) injected corpora
     rng = lib.rng_for(ctx, "c10-inject")
     istats = {}
